@@ -48,6 +48,21 @@ IO = "tornado/iostream.py"
 CN = "_Connector"
 
 
+def _closes_all_loop(x) -> bool:
+    """`for s in self.streams: s.close()` (also over list/tuple/set(self.streams)), with no early exit"""
+    if not isinstance(x, ast.For):
+        return False
+    if not (q.dotted(x.iter) == "self.streams" or (isinstance(x.iter, ast.Call) and q.dotted(x.iter.func) in ("list", "tuple", "set") and x.iter.args and q.dotted(x.iter.args[0]) == "self.streams")):
+        return False
+    v = q.dotted(x.target)
+    return bool(v and x.body and any(isinstance(s, ast.Expr) and q.is_call(s.value, v + ".close") for s in x.body) and not any(isinstance(y, (ast.Break, ast.Return, ast.Continue)) for s in x.body for y in ast.walk(s)))
+
+
+def _close_all_event(n) -> bool:
+    """the node closes every in-flight stream: a close_streams() call, or its body written in place"""
+    return node_calls("self.close_streams")(n) or (n.kind == "for" and _closes_all_loop(n.ast))
+
+
 def _not_followed(fi, start, end, cfg=None) -> Set[int]:
     cfg = cfg or fi.cfg
 
@@ -209,12 +224,12 @@ def connector(ck):
         ck.ob("C10.winner-kept", ocd, m.ast, ("@disc", True) in ef[m.id], "the winning stream leaves self.streams before the future is resolved")
         c = [c for c in q.calls(m.ast) if q.call_attr(c) == "set_result"][0]
         ck.ob("C10.winner-kept", ocd, m.ast, bool(c.args) and _mentions(ocd.node, c.args[0], lambda x: isinstance(x, ast.Name) and x.id == wvar) and ("@res", True) in ef[m.id], "the result handed out is the stream of the attempt that just succeeded")
-    closes = ocd.cfg.stmt_nodes(node_calls("self.close_streams"))
+    closes = ocd.cfg.stmt_nodes(_close_all_event)
     for m in closes:
         ck.ob("C10.winner-kept", ocd, m.ast, ("@disc", True) in ef[m.id], "the winning stream leaves self.streams before the losers are closed")
     # losers closed after success
     sid = {m.id for m in sets}
-    bad = _not_followed(ocd, lambda m: m.id in sid, node_calls("self.close_streams"))
+    bad = _not_followed(ocd, lambda m: m.id in sid, _close_all_event)
     for m in sets:
         ck.ob("C10.losers-closed", ocd, m.ast, m.id not in bad, "after resolving the future every other in-flight stream is closed (close_streams on every path)")
     # the overall timers are cancelled only once an attempt succeeded (a failure must leave the connect timeout armed)
@@ -458,7 +473,7 @@ def _after_split(ck, oct_, cs, methods):
     tsets = oct_.cfg.stmt_nodes(lambda m: _settles_future(m))
     ck.floor("C10.losers-closed", len(tsets), 1, "settles in on_connect_timeout")
     tid = {m.id for m in tsets}
-    bad = _not_followed(oct_, lambda m: m.id in tid, node_calls("self.close_streams"))
+    bad = _not_followed(oct_, lambda m: m.id in tid, _close_all_event)
     for m in tsets:
         ck.ob("C10.losers-closed", oct_, m.ast, m.id not in bad, "after the connect timeout fails the future every in-flight stream is closed")
         c = [c for c in q.calls(m.ast) if q.call_attr(c) == "set_exception"]
@@ -472,12 +487,7 @@ def _after_split(ck, oct_, cs, methods):
             a0 = rv_
         ck.ob("C10.losers-closed", oct_, m.ast, isinstance(a0, ast.Call) and (q.dotted(a0.func) or "").endswith("TimeoutError"), "the connect timeout completes the future with TimeoutError")
     # close_streams really closes every member
-    loops = [x for x in q.walk_body(cs.node) if isinstance(x, ast.For) and q.dotted(x.iter) in ("self.streams",) or (isinstance(x, ast.For) and isinstance(x.iter, ast.Call) and q.dotted(x.iter.func) in ("list", "tuple", "set") and x.iter.args and q.dotted(x.iter.args[0]) == "self.streams")]
-    ok = False
-    for lp in loops:
-        v = q.dotted(lp.target)
-        if v and lp.body and any(isinstance(s, ast.Expr) and q.is_call(s.value, v + ".close") for s in lp.body) and not any(isinstance(x, (ast.Break, ast.Return, ast.Continue)) for s in lp.body for x in ast.walk(s)):
-            ok = True
+    ok = any(_closes_all_loop(x) for x in q.walk_body(cs.node))
     ck.ob("C10.losers-closed", cs, cs.node, ok, "close_streams closes every member of self.streams", construct="close_streams loop")
     # who else touches the set
     for fi in methods:
@@ -731,7 +741,7 @@ def run(ck):
     ck.rule("C10.socket-owned", "the socket created in _create_stream is closed or owned by the returned stream on every exit")
     from ..x_inline import inline_repo
 
-    ck.repo = inline_repo(ck.repo, [TC], {"_create_stream"})
+    ck.repo = inline_repo(ck.repo, [TC], {"_create_stream"}, join_index=True)
     connector(ck)
     cfg = create_stream(ck)
     callback_leak(ck, cfg)
